@@ -739,6 +739,8 @@ class Interp:
             b = self.ev(n.c[0], env, fn, depth)
             i = self.ev(n.c[1], env, fn, depth)
             sz = TYPE_SIZES.get(clean_type(n.t), None) or RECORD_SIZES.get(clean_type(n.t).replace("struct ", ""), None)
+            if sz is None and self.heap is not None:
+                sz = self.sizeof(n.t)          # enums, typedef'd records
             if isinstance(b, Ptr):
                 esz = sz or b.esz or 1
                 if isinstance(i, int) and isinstance(b.off, int):
